@@ -184,7 +184,7 @@ class Replica:
             cfg['ctor'] = dict(cfg.get('ctor', {}), input_example=True)
         self.spec_objs = {}             # a new process: new specification objects
         fresh = build_model(cfg, new_build_seed, spec_obj=user_spec(self, self.cfg['cost']))
-        fresh_sd = {k: tuple(v.shape) for k, v in fresh.state_dict().items()}
+        fresh_sd = {k: tuple(as_tensor(v).shape) for k, v in fresh.state_dict().items()}
         self.model = fresh
         self.make_optimizers()
         for pop in prologue:
@@ -211,7 +211,7 @@ class Replica:
             for op in log:
                 apply_config(self, op, replay=True)
         saved = torch.load(io.BytesIO(data), weights_only=True)
-        saved_sd = {k: tuple(v.shape) for k, v in saved.items()}
+        saved_sd = {k: tuple(as_tensor(v).shape) for k, v in saved.items()}
         res = self.model.load_state_dict(saved, strict=False)
         if config_after_load:
             # the other legitimate order of a resume script: construct, load the checkpoint, THEN re-issue the
@@ -699,7 +699,22 @@ def diff(a, b, path=''):
     return None if a == b else (path, a, b)
 
 
+def as_tensor(v):
+    """state_dict entries are tensors - except the "extra state" a module may add through get_extra_state(), which is
+    any picklable object: it is represented by the bytes of its canonical JSON / repr form, so that digests, shape
+    checks and comparisons treat it like any other entry"""
+    if isinstance(v, torch.Tensor):
+        return v
+    import json
+    try:
+        txt = json.dumps(v, sort_keys=True, default=repr)
+    except Exception:
+        txt = repr(v)
+    return torch.tensor(list(txt.encode()), dtype=torch.uint8)
+
+
 def tdigest(t):
+    t = as_tensor(t)
     return hashlib.sha1(t.detach().contiguous().cpu().numpy().tobytes()).hexdigest()[:16]
 
 
@@ -715,7 +730,7 @@ def pure_reads(model):
         pnames.add(n)
     for n, t in model.state_dict().items():
         if n not in pnames:
-            bufs[n] = t.detach()
+            bufs[n] = as_tensor(t).detach()
     # training flags of every real module; the untyped containers torch.fx creates for nested
     # qualified names (type exactly nn.Module) are inert and excluded
     flags = {n: bool(mod.training) for n, mod in model.named_modules() if type(mod) is not nn.Module}
